@@ -7,5 +7,5 @@ S=/var/tmp/verif-seed.$$
 git -C /repo worktree add -q --detach "$S" HEAD || exit 2
 trap 'git -C /repo worktree remove --force "$S" >/dev/null 2>&1; rm -rf /tmp/vr.$$' EXIT
 git -C "$S" apply "$patch" || { echo "patch does not apply"; exit 2; }
-mkdir -p /tmp/vr.$$; for d in props claims replay known_findings.json; do ln -s /verif/$d /tmp/vr.$$/$d; done
+mkdir -p /tmp/vr.$$; for d in props claims replay bounded known_findings.json; do ln -s /verif/$d /tmp/vr.$$/$d; done
 bin/govc check --root /tmp/vr.$$ --repo "$S" --tier $tier "$id" | sed "s|/tmp/vr.$$|<root>|g" | cut -c1-260
